@@ -65,6 +65,9 @@ type Verifier struct {
 	engineErrors   []string
 	funcsDone      []string
 	typeTags       map[string]int64
+	tagTypes       map[int64]types.Type        // tag -> Go type
+	implNames      map[string]string           // implements_<I> symbol -> type key of I
+	implIfaces     map[string]*types.Interface // implements_<I> symbol -> I
 	srcLines       map[string][]string
 	ufs            map[string]*ufDef
 	taggedAxioms   []Clause
